@@ -2,6 +2,15 @@
 import base64, itertools, os, re
 import vlib
 
+MANIFEST = dict(
+    level=("proof", "Nine Coq theorems over an executable model of base64.c whose tables are regenerated from the "
+           "source on every run (round trip, RFC 4648 canonicity, chunking independence, exact accept language, "
+           "encode/decode write bounds), for all byte strings and all partitions; tied to the code by running "
+           "model (extracted) and base64.c (ASan, exact-size buffers) on >130k aimed cases per run.", "7 C19"),
+    note="Trusted: Coq kernel+vm_compute, gen_facts probe, extraction (ExtrOcamlBasic), harness/driver glue; "
+         "the C code itself is modelled, tied by differential testing, not verified.",
+    technique="Coq proof (induction + finite sweeps lifted by lemma) + translator for tables + differential correspondence")
+
 ALPH = b"ABCDEFGHIJKLMNOPQRSTUVWXYZabcdefghijklmnopqrstuvwxyz0123456789+/"
 WS = bytes([9, 10, 11, 12, 13, 32])
 
@@ -175,7 +184,7 @@ def run(ctx):
                        "extracted model; cases = exhaustive encode inputs <=2 bytes, all strings over 9 character "
                        "classes up to length 5 (7 thorough), random inputs at group boundaries, mutated encodings, "
                        "all partitions of inputs <=6 (8) bytes; non-trivial = every case (distinct by content)")
-    oracle = vlib.build_oracle(ctx) if proved or True else None
+    oracle = vlib.build_oracle(ctx, "b64")
     src = [os.path.join(vlib.HARNESS, "b64_harness.c"), os.path.join(vlib.REPO, "src/munged/base64.c")]
     exe, err = vlib.cc(ctx, "b64h", src)
     if exe is None:
@@ -213,7 +222,7 @@ def run(ctx):
     # the model on the same cases
     mismatches = []
     if oracle:
-        rc2, mod, err2 = vlib.run_lines([oracle, "b64"], lines, timeout=1800, env={"OCAMLRUNPARAM": "l=8G"})
+        rc2, mod, err2 = vlib.run_lines([oracle], lines, timeout=1800, env={"OCAMLRUNPARAM": "l=8G"})
         if rc2 != 0 or len(mod) != len(lines):
             ctx.violation("oracle failed to run: rc=%d %s" % (rc2, err2[-300:]), {"obligation": "oracle run"}, found_input=False)
             return
